@@ -20,6 +20,14 @@ static void setav(AV& d, AV& s) {
   d.rank = s.rank; d.elem = s.elem; d.a1.clear(); d.a2.clear(); d.a3.clear(); d.a4.clear();
   if (s.rank == 1) d.a1 >>= s.a1; if (s.rank == 2) d.a2 >>= s.a2; if (s.rank == 3) d.a3 >>= s.a3; if (s.rank == 4) d.a4 >>= s.a4;
 }
+static bool g_const = false;   // "const" on the command line: every operation that has a const overload is applied through a const reference
+template <class R> struct is_view { static const bool value = !std::is_arithmetic<typename std::decay<R>::type>::value; };
+template <class Arr, typename... T>
+static typename std::enable_if<is_view<decltype(std::declval<const Arr&>()(std::declval<T>()...))>::value>::type
+slice_const(Arr& a, AV& out, T... acc) { store(out, static_cast<const Arr&>(a)(acc...)); }
+template <class Arr, typename... T>
+static typename std::enable_if<!is_view<decltype(std::declval<const Arr&>()(std::declval<T>()...))>::value>::type
+slice_const(Arr& a, AV& out, T... acc) { store(out, a(acc...)); }   // all indices scalar: the const overload returns a value, not an element
 struct Arg { char kind; int a, b, c; };
 typedef decltype(adept::end + 0) EndExpr;
 typedef decltype(stride(0, 0, 1)) RangeI;
@@ -42,7 +50,7 @@ template <int R, int K, bool Full, typename... T> struct Slicer {
   template <bool F> static typename std::enable_if<!F, RangeI>::type selr(const Arg& x) { return stride(x.a, x.b, x.c); }
 };
 template <int R, bool Full, typename... T> struct Slicer<R, R, Full, T...> {
-  template <class Arr> static void go(Arr& a, const std::vector<Arg>&, AV& out, T... acc) { store(out, a(acc...)); }
+  template <class Arr> static void go(Arr& a, const std::vector<Arg>&, AV& out, T... acc) { if (g_const) slice_const(a, out, acc...); else store(out, a(acc...)); }
 };
 static void do_slice(AV& v, const std::vector<Arg>& g, AV& out) {
   switch (v.rank) {
@@ -70,7 +78,8 @@ template <class F> static void for_each(AV& v, F f) {
 }
 struct Printer { std::ostream& os; void operator()(double& x) { os << " " << (long)x; } };
 struct Writer { int k; void operator()(double& x) { x = 1000 + k++; } };
-int main() {
+int main(int argc, char** argv) {
+  g_const = argc > 1 && std::string(argv[1]) == "const";
   std::string line;
   while (std::getline(std::cin, line)) {
     std::istringstream is(line);
@@ -100,9 +109,11 @@ int main() {
           do_slice(cur, g, nxt);
         } else if (tok == "I" || tok == "J") {
           int k; is >> k;
-          if (tok == "I") { if (cur.rank == 2) store(nxt, cur.a2[k]); if (cur.rank == 3) store(nxt, cur.a3[k]); if (cur.rank == 4) store(nxt, cur.a4[k]); }
+          if (tok == "I" && g_const) { if (cur.rank == 2) store(nxt, static_cast<const A2&>(cur.a2)[k]); if (cur.rank == 3) store(nxt, static_cast<const A3&>(cur.a3)[k]); if (cur.rank == 4) store(nxt, static_cast<const A4&>(cur.a4)[k]); }
+          else if (tok == "I") { if (cur.rank == 2) store(nxt, cur.a2[k]); if (cur.rank == 3) store(nxt, cur.a3[k]); if (cur.rank == 4) store(nxt, cur.a4[k]); }
+          else if (g_const) { if (cur.rank == 2) store(nxt, static_cast<const A2&>(cur.a2)[adept::end + k]); if (cur.rank == 3) store(nxt, static_cast<const A3&>(cur.a3)[adept::end + k]); if (cur.rank == 4) store(nxt, static_cast<const A4&>(cur.a4)[adept::end + k]); }
           else { if (cur.rank == 2) store(nxt, cur.a2[adept::end + k]); if (cur.rank == 3) store(nxt, cur.a3[adept::end + k]); if (cur.rank == 4) store(nxt, cur.a4[adept::end + k]); }
-        } else if (tok == "T") { store(nxt, cur.a2.T());
+        } else if (tok == "T") { if (g_const) store(nxt, static_cast<const A2&>(cur.a2).T()); else store(nxt, cur.a2.T());
         } else if (tok == "M") {
           int n; is >> n; int p[4]; for (int i = 0; i < n; ++i) is >> p[i];
           if (cur.rank == 2) store(nxt, cur.a2.permute(p)); if (cur.rank == 3) store(nxt, cur.a3.permute(p)); if (cur.rank == 4) store(nxt, cur.a4.permute(p));
@@ -114,10 +125,21 @@ int main() {
           if (n == 3) store(nxt, cur.a1.reshape(dimensions(d[0], d[1], d[2])));
           if (n == 4) store(nxt, cur.a1.reshape(dimensions(d[0], d[1], d[2], d[3])));
         } else if (tok == "L") {
+          if (g_const) {
+            if (cur.rank == 1) store(nxt, static_cast<const A1&>(cur.a1).soft_link()); if (cur.rank == 2) store(nxt, static_cast<const A2&>(cur.a2).soft_link());
+            if (cur.rank == 3) store(nxt, static_cast<const A3&>(cur.a3).soft_link()); if (cur.rank == 4) store(nxt, static_cast<const A4&>(cur.a4).soft_link());
+          } else {
           if (cur.rank == 1) store(nxt, cur.a1.soft_link()); if (cur.rank == 2) store(nxt, cur.a2.soft_link());
           if (cur.rank == 3) store(nxt, cur.a3.soft_link()); if (cur.rank == 4) store(nxt, cur.a4.soft_link());
+          }
         } else if (tok == "B") {
           int b[4], e[4]; for (int i = 0; i < cur.rank; ++i) is >> b[i] >> e[i];
+          if (g_const) {
+            if (cur.rank == 1) store(nxt, static_cast<const A1&>(cur.a1).subset(b[0], e[0]));
+            if (cur.rank == 2) store(nxt, static_cast<const A2&>(cur.a2).subset(b[0], e[0], b[1], e[1]));
+            if (cur.rank == 3) store(nxt, static_cast<const A3&>(cur.a3).subset(b[0], e[0], b[1], e[1], b[2], e[2]));
+            if (cur.rank == 4) store(nxt, static_cast<const A4&>(cur.a4).subset(b[0], e[0], b[1], e[1], b[2], e[2], b[3], e[3]));
+          } else
           if (cur.rank == 1) store(nxt, cur.a1.subset(b[0], e[0]));
           if (cur.rank == 2) store(nxt, cur.a2.subset(b[0], e[0], b[1], e[1]));
           if (cur.rank == 3) store(nxt, cur.a3.subset(b[0], e[0], b[1], e[1], b[2], e[2]));
